@@ -9,7 +9,7 @@ GetId reply arrives.  A disconnect is awaited through the NameOwnerChanged signa
 for the unique name at a separate observer connection, followed by one observer
 round trip (the callee-left expiry runs from a zero-interval timeout that the main
 loop handles before it reads further input).  ETick is real time passing."""
-import os, shutil, sys, tempfile, time
+import os, shutil, signal, sys, tempfile, time
 sys.path.insert(0, os.path.dirname(os.path.abspath(__file__)))
 import rawbus
 from rawbus import Msg, METHOD_CALL, METHOD_RETURN, ERROR, SIGNAL, F_PATH, F_INTERFACE, F_MEMBER, F_ERROR_NAME, \
@@ -216,6 +216,7 @@ def run_history(bus, events, pipeline=False):
     reply serial) and the arrival order at each recipient must follow the order of writing (per-sender FIFO)."""
     conns, uniq, by_unique = {}, {}, {}
     blocked = set()
+    stopped, hung = False, []
     sent = {}
     nextid = 0
     toks = []
@@ -365,7 +366,7 @@ def run_history(bus, events, pipeline=False):
                 by_unique[c.unique] = nextid
                 nextid += 1
                 toks.append(collect())
-            elif f[0] == "S":
+            elif f[0] == "S" and not stopped:
                 k = int(f[1])
                 if k not in conns or k in blocked:
                     toks.append("!")
@@ -391,6 +392,42 @@ def run_history(bus, events, pipeline=False):
                 nominal += int(f[1])
                 bus.obs.barrier()
                 toks.append(collect(sort_within=True))
+            elif f[0] == "Z":
+                # freeze the daemon: what the clients do until Y is seen by ONE main-loop iteration after SIGCONT
+                pid = bus.d.proc.pid
+                os.kill(pid, signal.SIGSTOP)
+                for _ in range(400):
+                    with open("/proc/%d/stat" % pid) as fh:
+                        if fh.read().rsplit(")", 1)[1].split()[0] == "T":
+                            break
+                    time.sleep(0.002)
+                else:
+                    raise IOError("daemon did not stop")
+                stopped = True
+                toks.append("~")
+            elif f[0] == "Y":
+                os.kill(bus.d.proc.pid, signal.SIGCONT)
+                stopped = False
+                for k in hung:
+                    if not bus.wait_gone(uniq[k]):
+                        raise IOError("bus did not notice the disconnect of %s" % uniq[k])
+                hung = []
+                bus.obs.barrier()
+                toks.append(collect(sort_within=True))
+            elif f[0] == "H":
+                k = int(f[1])
+                if not stopped or k not in conns:
+                    raise ValueError("H outside a frozen batch")
+                conns[k].close()
+                del conns[k]
+                hung.append(k)
+                toks.append("~")
+            elif stopped and f[0] == "S":
+                k = int(f[1])
+                m = build_msg(f[1:], uniq, pad)
+                sent[int(f[9])] = (k, m)
+                conns[k].send(m)
+                toks.append("~")
             elif f[0] == "B":
                 k = int(f[1])
                 if k not in conns or k in blocked:
@@ -446,6 +483,8 @@ def run_history(bus, events, pipeline=False):
                 raise ValueError("event " + tok)
         notes["drift_ms"] = (time.time() - t_start) * 1000.0 - nominal
     finally:
+        if stopped:
+            os.kill(bus.d.proc.pid, signal.SIGCONT)
         os.close(devnull)
         for k in sorted(conns):
             conns[k].close()
